@@ -39,8 +39,9 @@ def log(*a):
 
 def goenv():
     e = dict(os.environ)
-    e.update(GOFLAGS="-mod=mod", GOPROXY="off", GOSUMDB="off", GOTOOLCHAIN="local",
-             CGO_ENABLED=e.get("CGO_ENABLED", "0"))
+    # CGO_ENABLED is left at the toolchain default (1 here): that is how a user's `go build` links gofasta, and with
+    # cgo linked in the Go runtime's "all goroutines are asleep" detector is off, so a protocol deadlock is a real hang
+    e.update(GOFLAGS="-mod=mod", GOPROXY="off", GOSUMDB="off", GOTOOLCHAIN="local")
     return e
 
 
@@ -153,7 +154,7 @@ class Ctx:
         res["violated"] = re.findall(r"Error: (?:Invariant|Action property|Temporal properties|Postcondition) ?(\S*) ?(?:is|was|were)? ?violated", out)
         inv = re.findall(r"Invariant (\S+) is violated", out)
         inv += re.findall(r"Action property (\S+) is violated", out)
-        if "Temporal properties were violated" in out:
+        if re.search(r"Temporal propert(y|ies) .*violated", out):
             inv.append("<temporal>")
         if "Deadlock reached" in out:
             inv.append("<deadlock>")
